@@ -52,3 +52,42 @@ else:
     s = s.rstrip("\n") + "\n\n---------------------------------------------------------------------------------------------------\n\n" + sec + "\n"
 open(p, "w", encoding="utf-8").write(s)
 print("DESIGN.md: merged", len(glob.glob(os.path.join(ROOT, "design", "asbuilt", "C*.txt"))), "as-built paragraphs,", len(rows), "seeds")
+
+# 3. disposition of defects (from KNOWN_FINDINGS.json + known_findings.d)
+def load_findings():
+    out = []
+    for f in [os.path.join(ROOT, "KNOWN_FINDINGS.json")] + sorted(glob.glob(os.path.join(ROOT, "known_findings.d", "*.json"))):
+        try:
+            out += json.load(open(f)).get("findings", [])
+        except Exception as e:
+            print("unreadable", f, e)
+    return out
+fs = load_findings()
+seen = set()
+lines = ["### 7.1 Disposition as built (generated from KNOWN_FINDINGS.json)", "",
+         "**Known findings (genuine defects recorded, not repaired)** — the check prints `KNOWN-FINDING:` for each and still",
+         "reports any other violation of the same property (entries are matched by the narrow classifier key):", ""]
+for k in fs:
+    if k.get("status") == "known" and (k["property"], k["key"]) not in seen:
+        seen.add((k["property"], k["key"]))
+        lines.append("* `%s` (%s) — witness: %s. %s" % (k["key"], k["property"], k.get("witness", "see design/%s.md" % k["property"]), k.get("what", "")))
+lines += ["", "**Repaired by `fix:` commits in /repo** (one defect per commit, unedited suite passes; `fixed:` entries suppress nothing — the",
+          "witnesses stay in the harness corpora, so a regression is reported again):", "",
+          "| commit | property | what failed |", "|---|---|---|"]
+bycommit = {}
+for k in fs:
+    if k.get("status") == "fixed":
+        bycommit.setdefault(k.get("commit", "?"), {"props": [], "what": k.get("what", "")})["props"].append(k["property"])
+for c, v in bycommit.items():
+    lines.append("| %s | %s | %s |" % (c, ", ".join(sorted(set(v["props"]))), v["what"].replace("|", "\\|")))
+lines.append("")
+sec7 = "\n".join(lines)
+pat7 = re.compile(r"^### 7\.1 Disposition as built.*?(?=^-{20,}$)", re.S | re.M)
+s = open(p, encoding="utf-8").read()
+if pat7.search(s):
+    s = pat7.sub(lambda m: sec7 + "\n", s)
+else:
+    m8 = re.search(r"^-{20,}\n\n## 8\. Interface", s, re.M)
+    s = s[:m8.start()] + sec7 + "\n" + s[m8.start():]
+open(p, "w", encoding="utf-8").write(s)
+print("DESIGN.md: §7.1 regenerated,", len(seen), "known,", len(bycommit), "fix commits")
